@@ -373,6 +373,20 @@ def check(ctx):
     if n10 < 60:
         raise AnalysisError('C01.R10 examined only %d method pairs' % n10)
 
+    # ---- R11: conversion literal agreement (sa/siblings.py): int<->octets (byteorder, signed), text<->octets (encoding), struct (format)
+    ctx.rule('C01.R11', 'the octet/text conversions of an encode path and of its decode path use the same parameters (byteorder, signed, encoding, struct format)')
+    n11 = 0
+    for rel in ('asn1tools/codecs/ber.py', 'asn1tools/codecs/der.py', 'asn1tools/codecs/per.py', 'asn1tools/codecs/uper.py', 'asn1tools/codecs/oer.py'):
+        for c, ef, df, kind, pe, pd, ok in siblings.conversion_agreement(model, rel):
+            n11 += 1
+            ctx.instance('C01.R11', '%s %s: encoder %s / decoder %s' % (c.qname, kind, sorted(pe), sorted(pd)), 'ok' if ok else 'VIOLATION', node=df, file=rel)
+            if not ok:
+                ctx.violation('C01.R11', rel, df, Model.qual(df),
+                              '%s converts %s with %s when encoding and with %s when decoding: the decoder does not read back what the encoder wrote' % (c.name, kind, sorted(pe), sorted(pd)),
+                              stmt='%s parameters differ' % kind)
+    if n11 < 10:
+        raise AnalysisError('C01.R11 found only %d conversion pairs' % n11)
+
 
 MUTANTS = [
     dict(name='addition group reset on all-zero bits alone', file=PER,
@@ -462,3 +476,7 @@ MUTANTS.append(dict(name='Encoder.align_always pads from the accumulator count a
 
 MUTANTS.append(dict(name='BER explicit tag decodes its contents with the inner content decoder', file='asn1tools/codecs/ber.py',
                     old="        values, end_offset = self.inner.decode(data, offset)", new="        values, end_offset = self.inner.decode_content(data, offset, length)", expect='C01.R10'))
+
+MUTANTS.append(dict(name='DER INTEGER contents read as unsigned', file='asn1tools/codecs/der.py',
+                    old="        return int.from_bytes(data[offset:end_offset], byteorder='big', signed=True), end_offset",
+                    new="        return int.from_bytes(data[offset:end_offset], byteorder='big', signed=False), end_offset", expect='C01.R11'))
